@@ -159,6 +159,15 @@ def build(ens, table, seed, calc_kind, restart_file):
             mc.max_cycles = 5
             mc.add_move(e, name="exch")
             mc.add_move(d, name="disp")
+        elif table == "exch_then_disp_one_trial":
+            # one trial = an exchange (deletions favoured) followed by a displacement of a particle chosen from the same labels:
+            # now and then the displacement draws the particle that has just been deleted and gives up -- nothing of that
+            # (a pre-selected target) may survive into the future of the run without being in the restart file
+            e = ExchangeMove(lab.copy(), op, bias_towards_insert=0.35)
+            d = DisplacementMove(lab.copy(), Ball(0.3))
+            mc.max_cycles = 6
+            mc.add_move(e + d, criteria=GrandCanonicalCriteria(), name="exch_disp")
+            mc.add_move(ExchangeMove(lab.copy(), op, bias_towards_insert=0.8), name="refill", probability=0.4)
         elif table == "shared_exch_in_composite":
             # the same ExchangeMove object stand-alone and as a member of a composite exchange move
             single = ExchangeMove(lab.copy(), op)
